@@ -243,6 +243,29 @@ func checkC16(c *Ctx) {
 			r.Unk("C16.3", "acceptLoop: chFromID", f.Pos(), fnName(f), "routing call not found")
 		}
 	}
+	// the credentials are a function of the whole secret: they come from the full HKDF (extract, then expand) over the
+	// secret - with expand alone the secret is used as an HMAC key, which pads short keys with zero bytes and hashes
+	// long ones first, so distinct secrets (S and S||0, L and SHA-256(L)) would derive the same certificates
+	for _, fnm := range []string{"clientHelloRandomFromSeed", "certsFromSeed"} {
+		f := c.fn("C16.3", dt, "", fnm)
+		if f == nil || len(f.Params) < 1 {
+			continue
+		}
+		var streams []string
+		okk := false
+		eachInstr(f, func(in ssa.Instruction) {
+			call, ok := in.(*ssa.Call)
+			if !ok || !strings.HasPrefix(calleeName(&call.Call), "golang.org/x/crypto/hkdf.") {
+				return
+			}
+			streams = append(streams, calleeShort(&call.Call))
+			if calleeName(&call.Call) == "golang.org/x/crypto/hkdf.New" && len(call.Call.Args) == 4 && stripConv(call.Call.Args[1]) == ssa.Value(f.Params[0]) {
+				okk = true
+			}
+		})
+		r.Check(okk && len(streams) == 1, "C16.3", fnm+": derived with hkdf.New(sha256, secret, …) - extract, then expand", f.Pos(), fnName(f), fmt.Sprint(streams),
+			"the DTLS credentials are not derived by the full HKDF over the shared secret ("+fmt.Sprint(streams)+"): with expand-only the secret is an HMAC key (zero-padded / pre-hashed), so related but different secrets yield the same certificates and hello-random - a peer with a different secret completes the handshake and is routed to the waiting acceptor")
+	}
 	// the check itself: the PRESENTED certificate must carry a signature made with the key of the EXPECTED certificate
 	// (which only a holder of the shared secret can derive)
 	if f := c.fn("C16.3", dt, "", "verifyCert"); f != nil && len(f.Params) == 2 {
